@@ -41,6 +41,9 @@ fn main() {
     std::panic::set_hook(Box::new(|_| {}));
     let out = std::io::stdout();
     let mut w = std::io::BufWriter::with_capacity(1 << 20, out.lock());
+    if let Some(n) = args[1].strip_prefix("find-c") {
+        find2::gen_round4(&mut w, &format!("C{}", n));
+    }
     match args[1].as_str() {
         "ops-int" => ops::gen_int(&mut w, &tier, seed),
         "ops-conv" => ops::gen_conv(&mut w, &tier, seed),
@@ -84,7 +87,7 @@ fn main() {
             findlayer::gen_c18(&mut w, &tier, seed);
             find2::gen_c18_slots(&mut w, &tier, seed);
         }
-        "find-c19" => findlayer::gen_c19(&mut w, &tier, seed),
+        "find-c19" => { findlayer::gen_c19(&mut w, &tier, seed); find2::gen_c19_broken(&mut w, &tier, seed) }
         "find-c20" => {
             findlayer::gen_c20(&mut w, &tier, seed);
             find2::gen_c20_tail(&mut w, &tier, seed);
